@@ -40,7 +40,10 @@ def make_module(rng, nf, sized=False):
             body = [["i32.const", b32(16 + 4 * k)], ["local.get", 0], ["i32.store", 2, 0], ["i32.const", b32(16 + 4 * k)], ["i32.load", 2, 0],
                     ["local.get", 0], ["call", 0], ["end"]]
         elif kind == 2:
-            body = [["i32.const", b32(200)], ["i32.const", b32(1)], ["i32.const", b32(3)], ["memory.init", 1], ["i32.const", b32(200)], ["i32.load", 0, 0],
+            # (memory.init may also name an ACTIVE segment - empty once it has been applied, so only the empty copy is defined -:
+            #  its array is referenced from whichever file the function lands in)
+            body = [["i32.const", b32(0)], ["i32.const", b32(0)], ["i32.const", b32(0)], ["memory.init", 2 if k % 2 else 0],
+                    ["i32.const", b32(200)], ["i32.const", b32(1)], ["i32.const", b32(3)], ["memory.init", 1], ["i32.const", b32(200)], ["i32.load", 0, 0],
                     ["local.get", 0], ["i32.add"], ["end"]]
         elif kind == 3:
             # the imported function and a defined one are also reached through the table (element segment referencing an import)
